@@ -322,7 +322,7 @@ pub fn parse_case(line: &str) -> Option<Case> {
             c.tag = v.to_string();
             continue;
         }
-        if matches!(k, "impl" | "direct" | "directmax" | "byref" | "ln" | "exp" | "agree" | "tree" | "borsh" | "rt" | "lazy") {
+        if matches!(k, "impl" | "direct" | "directmax" | "byref" | "ln" | "exp" | "agree" | "tree" | "borsh" | "rt" | "lazy" | "deps" | "dmr") {
             continue;
         }
         let val = match key_type(k) {
